@@ -616,7 +616,7 @@ pub fn check_str(c: &StrCase, obs: &mut Obs) -> Result<(), Fail> {
 // ------------------------------------------------------------------ coverage-guided lane (libFuzzer)
 
 fn fuzz_spec() -> crate::fuzzlane::FuzzSpec {
-    crate::fuzzlane::FuzzSpec { target: "filter", oracle: |d, o| judge(d, o).map(|_| ()), seeds: crate::fuzzlane::seeds_filter, max_len: 96, runs_per_worker: 1000000 }
+    crate::fuzzlane::FuzzSpec { target: "filter", oracle: |d, o| judge(d, o).map(|_| ()), seeds: crate::fuzzlane::seeds_filter, max_len: 96, runs_per_worker: 3000000 }
 }
 
 fn fuzz_run(ctx: &Ctx, known: &[crate::runner::KnownFinding]) -> crate::runner::LaneReport {
